@@ -32,7 +32,7 @@ ASSUMPTIONS = [
     "ignoredups / ignoreerr are applied when a buffer is flushed, per flushed batch (as implemented and documented for the JSON backend); "
     "the reference applies the same rule - the obligations are about consistency of len / index / slice / iteration with it",
 ]
-OUTSIDE = ["SQLite backend", "timing of real flusher threads", "BaseShell._append_history (one entry per executed command)"]
+OUTSIDE = ["SQLite backend", "preemptive timing of real flusher threads (pending_flush covers the cooperative sequentialisations only; $HISTCONTROL skips and clear with a flusher pending are outside)", "BaseShell._append_history (one entry per executed command)"]
 
 OPAQUE_NUMBER_FORMAT = True
 
@@ -150,10 +150,47 @@ def _pick(pool, i):
     return pool[j]
 
 
-def _history(bufsize, histcontrol, ops):
+class _ModelCond:
+    """The history's condition variable under a cooperative schedule: a waiter that is not yet at the front of the queue lets the
+    pending flusher 'threads' run, oldest first (each one's real run() waits for the front itself, dumps and leaves the queue)."""
+
+    def __init__(self, pending):
+        self.pending = pending
+
+    def __enter__(self):
+        return self
+
+    def __exit__(self, *a):
+        return False
+
+    def wait_for(self, pred, timeout=None):
+        while not pred():
+            if not self.pending:
+                raise RuntimeError("model: a waiter is not at the front of the queue and no flusher is pending (deadlock)")
+            self.pending.pop(0).run()
+        return True
+
+    def wait(self, timeout=None):
+        if self.pending:
+            self.pending.pop(0).run()
+
+    def notify_all(self):
+        pass
+
+    def notify(self, n=1):
+        pass
+
+
+def _history(bufsize, histcontrol, ops, defer=False):
     fs = FS()
     _install(fs, histcontrol)
+    pending: List = []
+    if defer:
+        # background flushers do not run when started: they run when a reader has to wait for them, at a `run_pending` step, or at the end
+        hj.JsonHistoryFlusher.start = lambda self: pending.append(self)
     h = hj.JsonHistory(filename=FN, sessionid="s", buffersize=bufsize, gc=False)
+    if defer:
+        h._cond = _ModelCond(pending)
     hc = set(histcontrol.split(",")) if histcontrol else set()
     file_ref: List[dict] = []
     buf_ref: List[dict] = []
@@ -175,6 +212,9 @@ def _history(bufsize, histcontrol, ops):
         if op == "flush":
             h.flush()
             do_flush()
+        elif op == "run_pending":
+            while pending:
+                pending.pop(0).run()
         elif op == "clear":
             # `history clear`: the session starts over, in memory and on disk; what is stored afterwards reads back like in a new session
             h.clear()
@@ -215,6 +255,8 @@ def _history(bufsize, histcontrol, ops):
         items = [it["inp"] for it in h.items()]
         if [x.rstrip("\n") for x in items] != [c["inp"].rstrip("\n") for c in ref]:
             return f"iteration: {tag}: items() = {items}"
+    while pending:
+        pending.pop(0).run()
     # ---- on-disk file decodes to the flushed commands ----
     if FN in fs.files:
         import json
@@ -239,6 +281,29 @@ def ob_buffer(bufsize: int, hc_i: int, n: int, o0: int, o1: int, o2: int, o3: in
     bs = _pick([1, 2, 3], bufsize - 1)
     hc = _pick(HC, hc_i)
     r = concretely(_history, bs, hc, ops)
+    if r:
+        k, rest = r.split(":", 1)
+        return viol(k, lambda: rest.strip())
+    return None
+
+
+POPS = ["append_a", "append_c", "append_b_fail", "flush", "run_pending"]
+
+
+def ob_pending(bufsize: int, n: int, o0: int, o1: int, o2: int, o3: int, o4: int) -> Optional[str]:
+    """Reads while background flushers are still pending (sequentialised: a pending flusher runs when a reader waits for it,
+    at an explicit step, or at the end). No $HISTCONTROL filtering, no clear."""
+    if not (1 <= bufsize <= 3 and 1 <= n <= 5):
+        raise Skip()
+    os_ = [o0, o1, o2, o3, o4]
+    for i in range(5):
+        if i < n:
+            if not (0 <= os_[i] < len(POPS)):
+                raise Skip()
+        elif os_[i] != 0:
+            raise Skip()
+    ops = [_pick(POPS, os_[i]) for i in range(n)]
+    r = concretely(_history, _pick([1, 2, 3], bufsize - 1), "", ops, True)
     if r:
         k, rest = r.split(":", 1)
         return viol(k, lambda: rest.strip())
@@ -383,6 +448,13 @@ OBLIGATIONS = [
                       "thorough": [dict(n=k, bufsize=b) for k in (1, 2, 3) for b in (1, 2, 3)] + [dict(n=4, bufsize=b, hc_i=h) for b in (1, 2, 3) for h in range(5)]
                                   + [dict(n=5, bufsize=b, hc_i=h, o0=o) for b in (1, 2, 3) for h in range(5) for o in range(6)]},
                timeout={"quick": 240, "thorough": 1500}, symbolic="operation indices, buffer size, HISTCONTROL index"),
+    Obligation("pending_flush", ob_pending,
+               bounds="histories of 1..4 (quick) / 5 (thorough) operations out of {append x3, flush, let the pending flushers run}; buffer size 1..3; background "
+                      "flushers are queued but run only when a reader waits for them, at an explicit step or at the end (cooperative sequentialisation "
+                      "of the real queue/condition protocol): every read after every step returns the right entry",
+               pre=["1 <= bufsize <= 3", "0 <= o0 < 5", "0 <= o1 < 5", "0 <= o2 < 5", "0 <= o3 < 5", "0 <= o4 < 5"],
+               parts={"quick": [dict(n=k) for k in (1, 2, 3, 4)], "thorough": [dict(n=k) for k in (1, 2, 3, 4, 5)]},
+               timeout={"quick": 240, "thorough": 900}, symbolic="operation indices, buffer size"),
     Obligation("unicode_index", ob_unicode,
                bounds="1..3 commands drawn from 11 texts (ASCII, 2/3/4-byte UTF-8, quotes, backslash, newline, U+2028, NUL/DEL, tab) through the "
                       "real json encoder into a UTF-8 file; every value read back through the embedded index by byte offset",
